@@ -355,13 +355,19 @@ class Sim:
                     field = self.A_obj  # the very object the run under test evaluates (Parameter caches included)
                 else:
                     field, _ = B.build_field(what["field"], h.ctx)
-                solver = tdgl.TDGLSolver(
-                    h.device,
-                    opts,
-                    applied_vector_potential=field,
-                    terminal_currents=B.build_currents(cur_spec),
-                    disorder_epsilon=B.build_epsilon(eps_spec),
-                )
+                try:
+                    solver = tdgl.TDGLSolver(
+                        h.device,
+                        opts,
+                        applied_vector_potential=field,
+                        terminal_currents=B.build_currents(cur_spec),
+                        disorder_epsilon=B.build_epsilon(eps_spec),
+                    )
+                except (RuntimeError, ValueError, FloatingPointError) as e:
+                    # the other simulation's own problem was rejected (its validator sampled other times): that is
+                    # the other caller's error, it must not surface in the run under test
+                    h.probe("guest_rejected:" + type(e).__name__)
+                    return
             try:
                 solver.solve()
                 h.probe("guest_completed")
